@@ -5,6 +5,8 @@
 // Oracle: exactly-once, per-sender FIFO, no deadlock (lost wake-up), shutdown returns.
 #include "sched/sched.h"
 #include "system/Thread.h"
+#include "util/ICallbackMechanism.h"
+#include <functional>
 #include "system/SetupSystem.h"
 #include "syslog/SysLog.h"
 
@@ -14,11 +16,24 @@ const char * vf_harness_name = "c11_thread";
 #include <poll.h>
 static bool FdReadable(int fd) {struct pollfd p; p.fd = fd; p.events = POLLIN; p.revents = 0; return (poll(&p, 1, 0) > 0)&&((p.revents&(POLLIN|POLLHUP|POLLERR)) != 0);}
 
+// the optional third way for replies to reach the owner: the Thread asks a callback mechanism for a DispatchCallbacks() call in the owner's thread.  This one only
+// remembers that it was asked; the owner's script decides when (and whether) to dispatch.  It comes in addition to the wake-up signal, never instead of it.
+class HMech : public ICallbackMechanism
+{
+public:
+   HMech() : asked(0) {}
+   uint32 asked;
+private:
+   virtual void SignalDispatchThreadImplementation() {asked++;}
+};
+
 class EchoThread : public Thread
 {
 public:
-   EchoThread(bool socks, bool selectLoop, vsched::Scheduler * sc) : Thread(socks), _selectLoop(selectLoop), _sc(sc) {}
+   EchoThread(bool socks, bool selectLoop, vsched::Scheduler * sc, ICallbackMechanism * mech) : Thread(socks, mech), _selectLoop(selectLoop), _sc(sc) {}
+   std::function<void(const MessageRef &)> onReplyByCallback;
 protected:
+   virtual void MessageReceivedFromInternalThread(const MessageRef & ref, uint32) {if (onReplyByCallback) onReplyByCallback(ref);}
    virtual status_t MessageReceivedFromOwner(const MessageRef & msg, uint32) {if (msg() == NULL) return B_ERROR; return SendMessageToOwner(msg);}   // NULL == shutdown request
    // the documented alternative to the stock loop: an event loop of its own that blocks on the wake-up socket (select() for read) and then collects what has arrived
    virtual void InternalThreadEntry()
@@ -37,20 +52,20 @@ private:
    bool _selectLoop; vsched::Scheduler * _sc;
 };
 
-struct Cfg {bool socks; int nOwner; int preQueue; bool restart; int nExtra; int perExtra; std::vector<uint8_t> recvPlan; bool earlyStop, selectLoop, ownerSocketFirst;};
+struct Cfg {bool socks; int nOwner; int preQueue; bool restart; int nExtra; int perExtra; std::vector<uint8_t> recvPlan; bool earlyStop, selectLoop, ownerSocketFirst, mechanism;};
 
 extern "C" int vf_run_case(const uint8_t * data, size_t size)
 {
    static CompleteSetupSystem * css = NULL; if (css == NULL) {css = new CompleteSetupSystem; SetConsoleLogLevel(MUSCLE_LOG_NONE);}
    if (size < 6) return 0;
    vf::BS bs(data, size);
-   Cfg c; c.socks = bs.flip(); c.nOwner = 1+bs.u8()%5; c.preQueue = bs.u8()%3; if (c.preQueue > c.nOwner) c.preQueue = c.nOwner; const uint8_t rb = bs.u8(); c.restart = (rb%3 == 0); c.earlyStop = ((rb/3)%2 == 1); const uint8_t eb = bs.u8(); c.nExtra = eb%3; c.selectLoop = (c.socks)&&((eb/3)%3 == 0); c.ownerSocketFirst = (c.socks)&&((eb/9)%2 == 1); c.perExtra = 1+bs.u8()%3;
+   Cfg c; c.socks = bs.flip(); c.nOwner = 1+bs.u8()%5; c.preQueue = bs.u8()%3; if (c.preQueue > c.nOwner) c.preQueue = c.nOwner; const uint8_t rb = bs.u8(); c.restart = (rb%3 == 0); c.earlyStop = ((rb/3)%2 == 1); const uint8_t eb = bs.u8(); c.nExtra = eb%3; c.selectLoop = (c.socks)&&((eb/3)%3 == 0); c.ownerSocketFirst = (c.socks)&&((eb/9)%2 == 1); c.mechanism = ((eb/18)%3 == 1); c.perExtra = 1+bs.u8()%3;
    for (int i=0; i<24; i++) c.recvPlan.push_back(bs.u8());
-   char desc[400]; snprintf(desc, sizeof(desc), "%s signalling%s%s, owner sends %d (%d queued before start), %d extra sender(s) x %d, restart=%d%s", c.socks ? "socket-pair" : "wait-condition", c.selectLoop ? ", internal thread runs its own loop blocking on the wake-up socket" : "", c.ownerSocketFirst ? ", sockets created before start" : "", c.nOwner, c.preQueue, c.nExtra, c.perExtra, (int)c.restart, c.earlyStop ? ", shutdown with replies uncollected" : "");
+   char desc[400]; snprintf(desc, sizeof(desc), "%s signalling%s%s%s, owner sends %d (%d queued before start), %d extra sender(s) x %d, restart=%d%s", c.socks ? "socket-pair" : "wait-condition", c.selectLoop ? ", internal thread runs its own loop blocking on the wake-up socket" : "", c.ownerSocketFirst ? ", sockets created before start" : "", c.mechanism ? ", with a callback mechanism" : "", c.nOwner, c.preQueue, c.nExtra, c.perExtra, (int)c.restart, c.earlyStop ? ", shutdown with replies uncollected" : "");
    if (vf::Verbose()) fprintf(stderr, "config: %s\n", desc);
 
    vsched::ByteSource src(bs); vsched::Scheduler sc(src); sc.SetContext(desc);
-   EchoThread th(c.socks, c.selectLoop, &sc);
+   HMech mech; EchoThread th(c.socks, c.selectLoop, &sc, c.mechanism ? &mech : NULL); uint32 byCallback = 0;
    uint32 spurious = 0, totalReplies = 0, collectedAfterJoin = 0; bool stoppedEarly = false; int round = 0; volatile bool senderGo[2] = {false, false}; volatile bool sendersDone[2] = {false, false};
 
    sc.Spawn([&]{   // the owner
@@ -64,6 +79,7 @@ extern "C" int vf_run_case(const uint8_t * data, size_t size)
             if ((w < base)||(from < 0)||(from > c.nExtra)) vf::Fail("owner received a reply (what=%d) that was never sent in this round, %s (%s)", w, when, desc);
             if (seq != nextExpected[from]) vf::Fail("replies out of order or duplicated %s: sender %d expected #%d, got #%d (%s)", when, from, nextExpected[from], seq, desc);
             nextExpected[from]++; recvd++; totalReplies++;};
+         th.onReplyByCallback = [&](const MessageRef & rep) {accept(rep, "delivered by DispatchCallbacks()"); byCallback++;};
          for (int i=0; i<c.preQueue; i++) {if (th.SendMessageToInternalThread(GetMessageFromPool((uint32)(base+sent))).IsError()) vf::Fail("SendMessageToInternalThread failed before start"); sent++;}
          if ((c.ownerSocketFirst)&&(th.GetOwnerWakeupSocket()() == NULL)) vf::Fail("GetOwnerWakeupSocket returned a NULL socket");      // allocates the socket pair before the thread exists
          if (th.StartInternalThread().IsError()) vf::Fail("StartInternalThread failed (round %d)", round);
@@ -75,6 +91,8 @@ extern "C" int vf_run_case(const uint8_t * data, size_t size)
             if ((c.earlyStop)&&(sent == c.nOwner)&&(p%5 == 0)) {stoppedEarly = true; break;}      // shut down with replies still uncollected
             // (the script itself must make progress: after a few fruitless polls it sends what is left, then waits for real)
             if ((sent < c.nOwner)&&((p%3 != 0)||(fruitless >= 2))) {fruitless = 0; if (th.SendMessageToInternalThread(GetMessageFromPool((uint32)(base+sent))).IsError()) vf::Fail("SendMessageToInternalThread failed"); sent++; continue;}
+            // with a callback mechanism the owner now and then collects the way a GUI thread would: the mechanism was asked for a callback, so it dispatches
+            if ((c.mechanism)&&(mech.asked > 0)&&(p%7 == 3)) {mech.asked = 0; const int before = recvd; mech.DispatchCallbacks(); if (recvd > before) fruitless = 0; else fruitless++; continue;}
             // receive: zero timeout (poll), finite deadline, or block for ever -- blocking only once everything this thread has to send is sent
             uint64 wt = 0; const uint8_t k = (p/3)%4;
             if (k == 1) wt = sc.Now()+50; else if (((k >= 2)||(fruitless >= 4))&&(sent == c.nOwner)) wt = MUSCLE_TIME_NEVER;
@@ -89,6 +107,7 @@ extern "C" int vf_run_case(const uint8_t * data, size_t size)
          while(recvd < expectTotal) {MessageRef rep; const status_t rr = th.GetNextReplyFromInternalThread(rep, 0); if (rr.IsError()) vf::Fail("after shutdown and join %d of %d replies are missing (%s; %s)", expectTotal-recvd, expectTotal, rr(), desc); accept(rep, "after shutdown and join"); collectedAfterJoin++;}
          MessageRef extra; if ((th.GetNextReplyFromInternalThread(extra, 0).IsOK())&&(extra())) vf::Fail("a reply arrived that nobody asked for (duplicate delivery) after shutdown (%s)", desc);
          if (recvd != expectTotal) vf::Fail("received %d of %d", recvd, expectTotal);
+         th.onReplyByCallback = nullptr;
       }
    });
    for (int s=0; s<c.nExtra; s++) sc.Spawn([&, s]{
@@ -102,7 +121,7 @@ extern "C" int vf_run_case(const uint8_t * data, size_t size)
    sc.Run();
 
    vf::Count(c.socks ? "signalling_socket_pair" : "signalling_wait_condition"); vf::Count("context_switches", sc.Switches()); vf::Count("preemptions", sc.Preemptions()); vf::Count("replies_checked", totalReplies); vf::Count("spurious_timed_out_on_untimed_wait", spurious);
-   if (c.preQueue) vf::Count("case_messages_queued_before_start"); if (c.restart) vf::Count("case_restart_of_same_thread_object"); if (c.nExtra) vf::Count("case_extra_sender_threads"); if (c.selectLoop) vf::Count("case_own_event_loop_blocking_on_the_wakeup_socket"); if ((c.selectLoop)&&(c.ownerSocketFirst)&&(c.preQueue)) vf::Count("case_own_loop_with_sockets_and_messages_before_start"); if (collectedAfterJoin) vf::Count("case_replies_collected_after_join"); if ((collectedAfterJoin)&&(c.restart)) vf::Count("case_restart_after_join_with_replies_uncollected");
+   if (c.preQueue) vf::Count("case_messages_queued_before_start"); if (c.restart) vf::Count("case_restart_of_same_thread_object"); if (c.mechanism) vf::Count("case_thread_has_a_callback_mechanism"); if (byCallback) vf::Count("case_replies_delivered_by_dispatch_callbacks"); if (c.nExtra) vf::Count("case_extra_sender_threads"); if (c.selectLoop) vf::Count("case_own_event_loop_blocking_on_the_wakeup_socket"); if ((c.selectLoop)&&(c.ownerSocketFirst)&&(c.preQueue)) vf::Count("case_own_loop_with_sockets_and_messages_before_start"); if (collectedAfterJoin) vf::Count("case_replies_collected_after_join"); if ((collectedAfterJoin)&&(c.restart)) vf::Count("case_restart_after_join_with_replies_uncollected");
    const bool nontrivial = (sc.Preemptions() >= 1)&&(sc.BlockedThenResumed() >= 2);
    if (nontrivial) {uint64_t h = vf::HashStr(desc); for (size_t i=0; i<src.trace.size(); i++) h = vf::HashMix(h, src.trace[i]); vf::NonTrivial(h); if (vf::WantSample()) vf::Sample(std::string(desc)+" | "+std::to_string(sc.Switches())+" switches, "+std::to_string(sc.Preemptions())+" preemptions, "+std::to_string(sc.BlockedThenResumed())+" blocked-then-woken");}
    return 0;
